@@ -130,6 +130,12 @@ def make_case(rng, n, shape, targets=None, step=None, allow_inputs=True):
             step = rng.randint(d, n + 2)
     case = {"cells": cells, "elems": elems, "inputs": inputs, "precalc": [], "targets": list(targets),
             "step": step, "shape": shape}
+    if rng.random() < 0.35:
+        # held None values: some elements sum to 0 and hold None (model.allow_none = True), read as 0 by their callers
+        case["nones"] = True
+        for e in elems:
+            if rng.random() < 0.5:
+                e["base"] = 0
     return case
 
 
@@ -382,6 +388,7 @@ def run(tier, seed, rng):
             blocks[key] = blocks.get(key, 0) + 1
     out.distribution = {"kinds": kinds, "blocks_per_plan": blocks, "implementation_errors": nerr,
                         "with_inputs": sum(1 for c in cases if c["inputs"]),
+                        "with_held_None_values": sum(1 for c in cases if c.get("nones")),
                         "sizes": {str(k): sum(1 for c in cases if len(c["elems"]) == k) for k in sorted({len(c["elems"]) for c in cases})},
                         "shapes": {s: sum(1 for c in cases if c.get("shape") == s) for s in SHAPES},
                         **stats}
